@@ -99,7 +99,9 @@ def run(ctx):
         "well-formed PDU = text fields within their repertoires (AE titles 1..16 G0 characters without leading/trailing space, "
         "UIDs of digits and dots, no padding), reject/abort codes from the PS3.8 tables, unknown PDU / sub-item types outside "
         "the defined ones; user_variables = [] is encoded without a User Information item",
-        "strict-mode maximum is exercised on P-DATA-TF PDUs (the PDU kind PS3.8 limits); 32-bit length overflow (4 GiB) is out of reach",
+        "strict-mode maximum is exercised on every PDU kind whose length can exceed it (P-DATA-TF, A-ASSOCIATE-RQ/AC, unknown types; "
+        "RJ/release/abort have the fixed length 4), with the length field at max-1, max, max+1, max+2, max+1018 for max 1018 and 16378, "
+        "strict and non-strict; 32-bit length overflow (4 GiB) is out of reach",
         "TLC integers are 32-bit: PDU lengths >= 2^31 are treated as 'never complete'",
     ]
     vlib.build_harness(["drv_pdu"])
